@@ -6,7 +6,8 @@
    advertisement [a] in Announce.ips.  Every theorem quantifies over all
    histories, services, addresses and interfaces. *)
 From Coq Require Import List NArith ZArith Bool.
-From Verif Require Import Model.Net Model.Announcer Proofs.AnnouncerP Proofs.AnnouncerNdpP Proofs.AnnouncerTop.
+From Verif Require Import Model.Net Model.Announcer Proofs.AnnouncerP Proofs.AnnouncerNdpP Proofs.AnnouncerTop
+  Model.AnnouncerExt Proofs.AnnouncerExtP.
 Import ListNotations.
 Local Open Scope Z_scope.
 
@@ -112,6 +113,94 @@ Theorem C13_rw_atomic : forall evs s0,
   forall ans, In ans (snd (exec evs s0)) ->
     exists pre post q, updates evs = pre ++ post /\ ans = ask (run pre s0) q.
 Proof. exact t_rw_atomic. Qed.
+
+(* ------------------------------------------------------------------------------------------
+   The rest of announcer.go (Model/AnnouncerExt.v): control flow of the loops, the spam loop,
+   the gratuitous sweeps and the interface rescan, interleaved in ANY order with SetBalancer /
+   DeleteBalancer / requests ([xrun evs (xinit ar nd)], evs an arbitrary event list).
+   ------------------------------------------------------------------------------------------ *)
+
+(* DeleteBalancer and gratuitous transcribed statement by statement, loops with their
+   continue / return, are the functions all theorems above speak about *)
+Theorem C13_delete_transcription : forall name s, delete_balancer_t name s = delete_balancer name s.
+Proof. exact delete_balancer_t_eq. Qed.
+
+Theorem C13_gratuitous_transcription : forall s a, gratuitous_t s a = gratuitous s a.
+Proof. exact gratuitous_t_eq. Qed.
+
+(* ... and the same loops with `return` where the code says `continue` are NOT: withdrawing one of two
+   services sharing an address leaves the service listed and the count wrong (seeded C13-4 / C09-4);
+   a sweep that returns at the first uncovered responder skips the covered ones behind it *)
+Theorem C13_delete_return_refuted :
+  exists ar nd us name i,
+    let s := reached ar nd us in let s' := delete_balancer_return name s in
+    announce_name s' name = true /\ rc s' i = 1 /\ services_with s' i = 2%nat /\
+    announce_name (delete_balancer name s) name = false.
+Proof. exact delete_return_refuted. Qed.
+
+Theorem C13_gratuitous_return_refuted :
+  exists ar nd us a, let s := reached ar nd us in
+    gratuitous_return s a = [] /\ gratuitous s a = [(true, 2%N)].
+Proof. exact gratuitous_return_refuted. Qed.
+
+(* in every state reachable by any interleaving of announce / withdraw / spam-loop receive / spam-loop
+   tick (any expiry choice) / interface rescan (any responder sets) / requests: reference counts are
+   exact, the node answers (address, interface) iff an announced service holds the address there,
+   and refuses with "not announced" iff nobody holds it *)
+Theorem C13_x_state : forall ar nd evs, let s := base (xrun evs (xinit ar nd)) in
+  (forall i, rc s i = Z.of_nat (services_with s i)) /\
+  (forall i intf, should_announce s i intf = DNone <->
+                  exists svc a, holds s svc a /\ a_ip a = i /\ match_intf a intf = true) /\
+  (forall i intf, should_announce s i intf = DAnnounceIP <-> forall svc a, holds s svc a -> a_ip a <> i).
+Proof. exact t_x_state. Qed.
+
+(* every unsolicited packet any step sends is for an address that an announced service holds at
+   that moment, on a responder that exists at that moment *)
+Theorem C13_x_unsolicited_sound : forall ar nd evs e y, let x := xrun evs (xinit ar nd) in
+  In y (sent (xstep x e)) ->
+  In y (sent x) \/
+  ((exists svc b, holds (base x) svc b /\ a_ip b = snd y) /\
+   In (snd (fst y)) (if fst (fst y) then arps (base x) else ndps (base x))).
+Proof. exact t_x_unsolicited_sound. Qed.
+
+(* after DeleteBalancer of the last holder of i: whatever the spam loop has queued or is still
+   repeating, whatever is rescanned, and until i is announced again — no answer on any interface,
+   no ARP reply to any packet, and NO further unsolicited announcement for i *)
+Theorem C13_x_withdraw_last : forall ar nd evs name i evs', let x := xrun evs (xinit ar nd) in
+  (forall svc a, holds (base x) svc a -> a_ip a = i -> svc = name) ->
+  Forall (not_set_of i) evs' ->
+  let x' := xrun evs' (xstep x (XDel name)) in
+  (forall intf, should_announce (base x') i intf = DAnnounceIP) /\
+  (forall intf mac op dst, arp_process (base x') intf mac op dst i <> DNone) /\
+  (forall y, In y (sent x') -> snd y = i -> In y (sent x)).
+Proof. exact t_x_withdraw_last. Qed.
+
+(* NDP groups, for ALL interleavings including rescans that create and close responders (the
+   responder sets found have no duplicates: keys of a.ndps): on every responder that exists, the
+   watcher counts equal the number of distinct announced IPv6 addresses per group, the socket is
+   a member iff that number is positive, and once no announced address maps to a group it has
+   been LEFT.  Holds since fix 437595c (defect F29): a new responder Watches what is in use. *)
+Theorem C13_x_ndp_groups_balanced : forall ar nd evs intf g, NoDup nd -> Forall wf_ev evs ->
+  let s := base (xrun evs (xinit ar nd)) in
+  In intf (ndps s) ->
+  grp s intf g = Z.of_nat (length (filter (in_group g) (announced s))) /\
+  mem s intf g = (if 0 <? grp s intf g then 1 else 0) /\
+  ((forall j, In j (announced s) -> in_group g j = false) -> mem s intf g = 0).
+Proof. exact x_groups_balanced. Qed.
+
+(* regression of the model for F29: with the rescan as it was BEFORE the fix (rescan_prefix), a
+   responder created after an IPv6 address was announced is not joined to the address'
+   solicited-node group although the announcer answers for it there *)
+Theorem C13_x_ndp_groups_balanced_prefix_refuted :
+  exists intf g i, let s := rescan_prefix [] [1%N] (set_balancer 1 (mk_adv (V6 1193046) true []) (init [] [])) in
+    In intf (ndps s) /\ In i (announced s) /\ in_group g i = true /\
+    should_announce s i intf = DNone /\ grp s intf g = 0 /\ mem s intf g = 0.
+Proof. exact late_responder_not_joined_prefix. Qed.
+
+Example C13_x_late_responder_joined :
+  let s := base (xrun [XSet 1 (mk_adv (V6 1193046) true []); XRescan [] [1%N]] (xinit [] [])) in
+  grp s 1 1193046 = 1 /\ mem s 1 1193046 = 1.
+Proof. exact late_responder_joined. Qed.
 
 (* non-vacuity: two services share 10.0.0.1 (one on interface 1 only), a third
    address is IPv6; withdraw one, then the other *)
